@@ -47,9 +47,9 @@ type TypeShape struct {
 	RetNil       bool // formatter has a return nil
 	RetCause     bool // formatter has a return of the cause field
 	RetOther     bool
-	RetInDetail  bool         // some return of the formatter sits inside the p.Detail() region
-	MsgTypeWhy   string       // ByMessageType: problem with the guards on the message type
-	Inherited    *types.Named // methods promoted from this embedded error type
+	RetInDetail  bool                // some return of the formatter sits inside the p.Detail() region
+	MsgTypeWhy   string              // ByMessageType: problem with the guards on the message type
+	Inherited    *types.Named        // methods promoted from this embedded error type
 	ErrFields    map[*types.Var]bool // receiver fields read by Error()
 }
 
